@@ -765,6 +765,59 @@ type c13Broker struct {
 	ev     chan c13Ev
 	answer func(c *c13Conn, n int) bool // called with c.mu held; n = number of this PINGREQ on c
 	delay  time.Duration                // the answer is sent this much later (0: inside the write)
+	// round 9: the scenario itself publishes QoS 0 on the current connection (steady outbound
+	// traffic); those PUBLISHes are the scenario's, not the library's reaction: not in "others"
+	traffic bool
+	pubs    int64 // QoS 0 PUBLISHes of the traffic generator taken by the transport (atomic)
+}
+
+// c13TrafficWait bounds the waits of the scenarios with outbound traffic (expected: interval+timeout,
+// well below a second); shorter than c13SysTO so that a lost detection is reported quickly.
+const c13TrafficWait = 8 * time.Second
+
+// startTraffic publishes QoS 0 every `every` on the BaseClient of the newest connection once its
+// CONNECT was seen (BaseClient.Publish waits for Connect to return), from its own goroutine, the
+// way an application publishes while mqtt.KeepAlive runs on the same client.  Errors (closed
+// connection) are ignored.  stop() ends it and returns the number of PUBLISHes the transports took.
+func (b *c13Broker) startTraffic(every time.Duration) (stop func() int64) {
+	b.mu.Lock()
+	b.traffic = true
+	b.mu.Unlock()
+	quit, done := make(chan struct{}), make(chan struct{})
+	go func() {
+		defer close(done)
+		tk := time.NewTicker(every)
+		defer tk.Stop()
+		for {
+			select {
+			case <-quit:
+				return
+			case <-tk.C:
+			}
+			c := b.conn(b.dials())
+			if c == nil || c.isClosed() {
+				continue
+			}
+			c.mu.Lock()
+			ok := c.connected
+			c.mu.Unlock()
+			if !ok {
+				continue
+			}
+			ctx, cancel := ctxTimeout(time.Second)
+			c.base.Publish(ctx, &mqtt.Message{Topic: "c13/out", QoS: mqtt.QoS0, Payload: []byte{1}})
+			cancel()
+		}
+	}()
+	var once sync.Once
+	return func() int64 {
+		once.Do(func() { close(quit) })
+		select {
+		case <-done:
+		case <-time.After(c13Stuck):
+		}
+		return atomic.LoadInt64(&b.pubs)
+	}
 }
 
 func newC13Broker(answer func(c *c13Conn, n int) bool) *c13Broker {
@@ -793,7 +846,9 @@ func (b *c13Broker) onWrite(sc *c13Conn, pkt []byte) error {
 	if !sc.isClosed() {
 		sc.mu.Lock()
 		hung := sc.hung
-		if t := pkt[0] & 0xF0; t != 0x10 && t != 0xC0 && t != 0x40 && t != 0x50 && t != 0x70 {
+		if b.traffic && pkt[0] == 0x30 {
+			atomic.AddInt64(&b.pubs, 1)
+		} else if t := pkt[0] & 0xF0; t != 0x10 && t != 0xC0 && t != 0x40 && t != 0x50 && t != 0x70 {
 			sc.others = append(sc.others, pkt[0]) // (acks of the peer's own PUBLISHes are not counted)
 		}
 		sc.mu.Unlock()
@@ -899,8 +954,21 @@ type c13SysRes struct {
 // hung: after the unanswered PINGREQ the peer does not take any byte either.
 // talk: mute to pings only: every unanswered PINGREQ is followed by PUBLISHes, PUBREL and stray acks.
 func c13SysSilent(interval, timeout time.Duration, k, cancelAfter int, hung, talk bool) (c13SysRes, error) {
+	return c13SysSilentT(interval, timeout, k, cancelAfter, hung, talk, 0)
+}
+
+// traffic > 0: the application publishes QoS 0 every `traffic` on the connection meanwhile (the
+// peer takes the bytes and says nothing); judged exactly like the idle case.
+func c13SysSilentT(interval, timeout time.Duration, k, cancelAfter int, hung, talk bool, traffic time.Duration) (c13SysRes, error) {
 	victim := 0
 	b := newC13Broker(nil)
+	wait := c13SysTO
+	stopTraffic := func() int64 { return 0 }
+	if traffic > 0 {
+		wait = c13TrafficWait
+		stopTraffic = b.startTraffic(traffic)
+		defer stopTraffic()
+	}
 	b.answer = func(c *c13Conn, n int) bool {
 		if victim != 0 && c.idx != victim {
 			return true // later connections are healthy
@@ -949,7 +1017,7 @@ func c13SysSilent(interval, timeout time.Duration, k, cancelAfter int, hung, tal
 		}
 		cancel() // the usual "defer cancel()" of the caller, Connect has returned long ago
 	}
-	found := b.waitEv(c13SysTO, func() bool { return getVictim() != 0 })
+	found := b.waitEv(wait, func() bool { return getVictim() != 0 })
 	v := getVictim()
 	if !found {
 		v = 1
@@ -985,6 +1053,7 @@ func c13SysSilent(interval, timeout time.Duration, k, cancelAfter int, hung, tal
 	vc.mu.Unlock()
 	errCoq, errDesc := c13ErrOf(vc.base)
 	vc.drop() // releases a writer still blocked on a hung peer
+	npubs := stopTraffic()
 	ctxD, cancelD := ctxTimeout(5 * time.Second)
 	cli.Disconnect(ctxD)
 	cancelD()
@@ -996,13 +1065,26 @@ func c13SysSilent(interval, timeout time.Duration, k, cancelAfter int, hung, tal
 			"other_packets_attempted_on_it_while_open": fmt.Sprintf("%x", others),
 			"interval_us": interval.Microseconds(), "timeout_us": timeout.Microseconds(), "silent_connection": v,
 			"pingreqs_on_it": pings, "client_closed_it": closed, "redialed": redialed, "fresh_connect": connected,
-			"its_Err": errDesc, "close_minus_last_answer_us": gap},
+			"its_Err": errDesc, "close_minus_last_answer_us": gap,
+			"app_publishes_qos0_meanwhile_every_us": traffic.Microseconds(), "app_publishes_taken_by_transport": npubs},
 	}, nil
 }
 
 // the broker answers every ping; then a graceful Disconnect
 func c13SysHealthy(interval, timeout, soak time.Duration) (c13SysRes, error) {
+	return c13SysHealthyT(interval, timeout, soak, 0)
+}
+
+// traffic > 0: the application publishes QoS 0 every `traffic` meanwhile; judged like the idle case
+func c13SysHealthyT(interval, timeout, soak, traffic time.Duration) (c13SysRes, error) {
 	b := newC13Broker(func(c *c13Conn, n int) bool { return true })
+	wait := c13SysTO
+	stopTraffic := func() int64 { return 0 }
+	if traffic > 0 {
+		wait = c13TrafficWait
+		stopTraffic = b.startTraffic(traffic)
+		defer stopTraffic()
+	}
 	cli, err := c13NewReconn(b, interval, timeout)
 	if err != nil {
 		return c13SysRes{}, err
@@ -1016,7 +1098,7 @@ func c13SysHealthy(interval, timeout, soak time.Duration) (c13SysRes, error) {
 	c1 := b.conn(1)
 	pingsOf := func(c *c13Conn) int { c.mu.Lock(); defer c.mu.Unlock(); return c.pings }
 	time.Sleep(soak) // a soak: the property is that nothing happens to the connection meanwhile
-	b.waitEv(c13SysTO, func() bool { return pingsOf(c1) >= 3 || b.dials() > 1 })
+	b.waitEv(wait, func() bool { return pingsOf(c1) >= 3 || b.dials() > 1 })
 	pings := pingsOf(c1)
 	elapsed := time.Since(t0).Microseconds()
 	dials := b.dials()
@@ -1024,6 +1106,7 @@ func c13SysHealthy(interval, timeout, soak time.Duration) (c13SysRes, error) {
 	closes := c1.clientClose
 	c1.mu.Unlock()
 	errCoq, errDesc := c13ErrOf(c1.base)
+	npubs := stopTraffic()
 	ctxD, cancelD := ctxTimeout(5 * time.Second)
 	cli.Disconnect(ctxD)
 	cancelD()
@@ -1038,7 +1121,8 @@ func c13SysHealthy(interval, timeout, soak time.Duration) (c13SysRes, error) {
 		Desc: map[string]interface{}{"scenario": "broker answers every ping, soak, graceful Disconnect",
 			"interval_us": interval.Microseconds(), "timeout_us": timeout.Microseconds(), "soak_us": soak.Microseconds(),
 			"pingreqs": pings, "elapsed_us": elapsed, "dials": dials, "closes_by_client_before_disconnect": closes,
-			"Err": errDesc, "Err_after_disconnect": aftDesc},
+			"Err": errDesc, "Err_after_disconnect": aftDesc,
+			"app_publishes_qos0_meanwhile_every_us": traffic.Microseconds(), "app_publishes_taken_by_transport": npubs},
 	}, nil
 }
 
@@ -1839,6 +1923,17 @@ func runC13(cfg *runCfg) error {
 	}
 	sys = append(sys, &sysJob{run: func() (c13SysRes, error) { return c13SysHealthy(5*ms, 5*time.Second, soak) }})
 	sys = append(sys, &sysJob{run: func() (c13SysRes, error) { return c13SysHealthy(2*ms, 5*time.Second, soak) }})
+	// round 9: steady outbound traffic (QoS 0 every interval/8) towards a peer that goes silent /
+	// stays healthy: writes that succeed locally prove nothing about the peer, the pings must go on
+	tks := []int{0, 2}
+	if !quick && !search {
+		tks = []int{0, 1, 2, 5, 9}
+	}
+	for _, k := range tks {
+		k := k
+		sys = append(sys, &sysJob{run: func() (c13SysRes, error) { return c13SysSilentT(40*ms, 250*ms, k, -1, false, false, 5*ms) }})
+	}
+	sys = append(sys, &sysJob{run: func() (c13SysRes, error) { return c13SysHealthyT(40*ms, 5*time.Second, soak, 5*ms) }})
 	for _, k := range []int{0, 1, 1} {
 		k := k
 		sys = append(sys, &sysJob{run: func() (c13SysRes, error) { return c13SysDrop(40*ms, 5*time.Second, k) }})
